@@ -132,7 +132,8 @@ def run(ctx):
     rng = ctx.subrng('c04')
     raw_sels = '{' + ', '.join(['[kind |-> "all"]', '[kind |-> "sample", n |-> 1]', '[kind |-> "sample", n |-> 2]', '[kind |-> "sample", n |-> 7]'] +
                                ['[kind |-> "slice", a |-> %s, b |-> %s, c |-> %s]' % (a, b, c) for a in ('NoneV', '0', '1', '-2')
-                                for b in ('NoneV', '2', '-1', '9') for c in ('NoneV', '1', '2', '3')]) + '}'
+                                for b in ('NoneV', '2', '-1', '9') for c in ('NoneV', '1', '2', '3')] +
+                               ['[kind |-> "slice", a |-> %s, b |-> %s, c |-> %s]' % (a, b, c) for a in ('NoneV', '3', '-1') for b in ('NoneV', '0', '-4') for c in ('-1', '-2')]) + '}'
     reqs = '{[all |-> TRUE, chans |-> {}], [all |-> FALSE, chans |-> {1}], [all |-> FALSE, chans |-> {2}], [all |-> FALSE, chans |-> {2,3}], [all |-> FALSE, chans |-> {}]}'
     ctx.tlc_check('MC_DlisFrames', 'DlisFrames', consts={'Selections': tlc.raw(raw_sels), 'Requests': tlc.raw(reqs)},
                   cfg_consts={'N': ctx.pick('4', '5'), 'NCh': '3', 'MaxN': '5', 'NoneV': 'NoneV'},
@@ -141,7 +142,7 @@ def run(ctx):
     import os
     pdir = ctx.wdir('pickle')
     traces, cases, meta = [], [], []
-    for fi in range(ctx.pick(250, 2000)):
+    for fi in range(ctx.pick(250, 6000)):
         data, types, frame_nos = build(rng, ctx.quick)
         persisted = (fi % 3 == 2)
         try:
@@ -175,7 +176,7 @@ def run(ctx):
                 k = rng.random()
                 if k < 0.6:
                     a, b = [rng.choice([None, rng.randint(-n - 1, n + 1)]) for _ in range(2)]
-                    c = rng.choice([None, 1, 2, 3, n])
+                    c = rng.choice([None, 1, 2, 3, n, -1, -2, -3])
                     if len(range(n)[slice(a, b, c)]) == 0:
                         continue
                     sel, selobj = dict(kind='slice', a=[] if a is None else [a], b=[] if b is None else [b], c=[] if c is None else [c]), Slice.Slice(a, b, c)
